@@ -71,6 +71,7 @@ pub struct WebSocketFramed<T, C, E, D> {
     decode_item: PhantomData<D>,
     buffer: Option<BytesMut>,
     errored: bool,
+    readable: bool,
 }
 
 impl<T, C, E, D> Unpin for WebSocketFramed<T, C, E, D> {}
@@ -81,7 +82,7 @@ where
     C: Encoder<E, Error = anyhow::Error> + Decoder<Item = D, Error = anyhow::Error> + Unpin,
 {
     pub fn new(stream: WebSocketStream<T>, codec: C) -> Self {
-        Self { stream, codec, encode_item: PhantomData, decode_item: PhantomData, buffer: None, errored: false }
+        Self { stream, codec, encode_item: PhantomData, decode_item: PhantomData, buffer: None, errored: false, readable: false }
     }
 }
 
@@ -98,6 +99,27 @@ where
             // like FramedRead: a decoder that failed is out of step with its peer, nothing after the error is decoded
             if self.errored {
                 return Poll::Ready(None);
+            }
+            // a message may carry more than one frame: decode what is left of it before waiting for the next message
+            if self.readable {
+                self.readable = false;
+                if let Some(mut payload) = self.buffer.take() {
+                    let decoded = self.codec.decode(&mut payload);
+                    if !payload.is_empty() {
+                        self.buffer = Some(payload);
+                    }
+                    match decoded {
+                        Ok(Some(item)) => {
+                            self.readable = self.buffer.is_some();
+                            return Poll::Ready(Some(Ok(item)));
+                        }
+                        Ok(None) => (),
+                        Err(e) => {
+                            self.errored = true;
+                            return Poll::Ready(Some(Err(e)));
+                        }
+                    }
+                }
             }
             match ready!(self.stream.poll_next_unpin(cx)) {
                 Some(Ok(msg)) => {
@@ -117,7 +139,10 @@ where
                             self.buffer = Some(payload);
                         }
                         match decoded {
-                            Ok(Some(item)) => return Poll::Ready(Some(Ok(item))),
+                            Ok(Some(item)) => {
+                                self.readable = self.buffer.is_some();
+                                return Poll::Ready(Some(Ok(item)));
+                            }
                             // not enough for a frame yet: poll the socket again (it registers the waker), never park without one
                             Ok(None) => continue,
                             Err(e) => {
